@@ -22,6 +22,7 @@ import (
 	"sync/atomic"
 
 	"github.com/B1NARY-GR0UP/originium/pkg/logger"
+	"github.com/B1NARY-GR0UP/originium/pkg/verifhook"
 	"github.com/B1NARY-GR0UP/originium/types"
 )
 
@@ -104,9 +105,11 @@ func Open(dir string, config Config) (*DB, error) {
 func (db *DB) Close() {
 	defer atomic.StoreUint32(&db.state, uint32(StateClosed))
 	db.closeC <- struct{}{}
+	verifhook.Point("close.signalled")
 	// queued memtables hold older data than the active one, they must reach the disk first,
 	// otherwise a crash leaves their (older) wal files next to a sstable with newer versions
 	<-db.closed
+	verifhook.Point("close.drained")
 
 	mt := db.memtable
 	mt.freeze()
@@ -168,6 +171,7 @@ func (db *DB) search(key types.Key) ([]byte, bool) {
 	// search memtable
 	mtEntry, ok := db.memtable.lowerBound(key)
 	if ok && types.IsSameKey(key, mtEntry.Key) {
+		verifhook.Event("search.memtable")
 		return types.Value(mtEntry)
 	}
 
@@ -176,6 +180,7 @@ func (db *DB) search(key types.Key) ([]byte, bool) {
 		imt := e.Value.(*memtable)
 		imtEntry, ok := imt.lowerBound(key)
 		if ok && types.IsSameKey(key, imtEntry.Key) {
+			verifhook.Event("search.immutable")
 			return types.Value(imtEntry)
 		}
 	}
@@ -183,9 +188,11 @@ func (db *DB) search(key types.Key) ([]byte, bool) {
 	// search sstables
 	sstEntry, ok := db.manager.searchLowerBound(key)
 	if ok && types.IsSameKey(key, sstEntry.Key) {
+		verifhook.Event("search.table")
 		return types.Value(sstEntry)
 	}
 
+	verifhook.Event("search.miss")
 	return nil, false
 }
 
@@ -196,19 +203,24 @@ func (db *DB) rawset(entries ...types.Entry) {
 	db.mu.RUnlock()
 
 	mt.setBatch(entries)
+	verifhook.Point("rawset.afterSet")
 
 	if mt.size() >= db.config.MemtableByteThreshold {
 		mt.freeze()
 		imt := mt
+		verifhook.Point("rawset.afterFreeze")
 
 		// readers and the flush goroutine access memtable and immutables with db.mu held
 		db.mu.Lock()
 		db.immutables.PushBack(imt)
 		db.memtable = mt.reset()
 		db.mu.Unlock()
+		verifhook.Event("rotate")
+		verifhook.Point("rawset.beforeQueue")
 
 		// the flush goroutine removes imt from immutables, so it must be listed before it is queued
 		db.flushC <- imt
+		verifhook.Point("rawset.afterQueue")
 	}
 }
 
@@ -217,6 +229,8 @@ func (db *DB) flushImmutable(imt *memtable) {
 	if err := db.manager.flushToL0(imt.all()); err != nil {
 		db.logger.Panicf("failed to flush immutable memtable: %v", err)
 	}
+	verifhook.Event("flush")
+	verifhook.Point("flush.beforeWalDelete")
 	// delete wal file
 	if err := imt.wal.Delete(); err != nil {
 		db.logger.Panicf("failed to delete immutable wal file: %v", err)
@@ -230,8 +244,11 @@ LOOP:
 	for {
 		select {
 		case imt := <-db.flushC:
+			verifhook.Point("run.dequeued")
 			db.flushImmutable(imt)
+			verifhook.Point("run.flushed")
 			db.manager.checkAndCompact()
+			verifhook.Point("run.compacted")
 
 			// remove the flushed memtable, which is not the newest one if others were queued meanwhile
 			db.mu.Lock()
@@ -242,6 +259,7 @@ LOOP:
 				}
 			}
 			db.mu.Unlock()
+			verifhook.Point("run.removed")
 
 			if closed && len(db.flushC) == 0 {
 				break LOOP
